@@ -273,6 +273,17 @@ def prior_calls(rng, c, obj, counters, k=(0, 3)):
             counters["prior_call_" + name] = counters.get("prior_call_" + name, 0) + 1
         except Exception:
             counters["prior_call_raised"] = counters.get("prior_call_raised", 0) + 1
+    # and sometimes a call that is (rightly) refused: a parameter vector of the wrong length, a non-numeric one.  Whatever it raises,
+    # it must not leave the object half-updated
+    if rng.random() < 0.4:
+        bad_arg = rng.choice([lambda: np.array(list(free_theta(c, c.theta)) + [1.0, 2.0, 3.0, 4.0, 5.0, 6.0]), lambda: "not a vector", lambda: np.array([])])()
+        try:
+            with contextlib.redirect_stdout(io.StringIO()), np.errstate(all="ignore"):
+                getattr(obj, rng.choice(["cost", "sensitivity", "residual"]))(bad_arg)
+            counters["refused_calls_accepted"] = counters.get("refused_calls_accepted", 0) + 1
+        except Exception:
+            counters["refused_calls"] = counters.get("refused_calls", 0) + 1
+        done.append("<refused call>")
     counters["prior_calls"] = counters.get("prior_calls", 0) + len(done)
     return done
 
